@@ -89,7 +89,7 @@ class Interp(object):
         """Resolve every reference / value of the op against the current universe."""
         out = {}
         for key, v in op.items():
-            if key == "op":
+            if key in META_KEYS:
                 continue
             if key in REF_KEYS:
                 out[key] = self.resolve(v)
@@ -301,10 +301,15 @@ class Interp(object):
     def op_validate(self, x):
         from odml.validation import Validation
         val = Validation(x)
-        return {"issues": self._issues(val.errors)}
+        first = self._issues(val.errors)
+        again = self._issues(Validation(x).errors)
+        val.run_validation()
+        rerun = self._issues(val.errors)
+        return {"issues": first, "again": again, "rerun": rerun}
 
     def op_doc_validate(self, d):
-        return {"issues": self._issues(d.validate().errors)}
+        first = self._issues(d.validate().errors)
+        return {"issues": first, "again": self._issues(d.validate().errors), "rerun": first}
 
     def op_validate_custom(self, x, klass="section", report=False):
         from odml.validation import Validation, ValidationError, IssueID
@@ -362,6 +367,7 @@ class Interp(object):
         self.env.clock.advance(s)
 
 
+META_KEYS = {"op", "valid", "labels", "note"}
 REF_KEYS = {"t", "x", "y", "p", "d", "parent"}
 REFLIST_KEYS = {"xs"}
 VALUE_KEYS = {"v", "values", "date", "val_card", "sec_card", "prop_card", "uncertainty", "dtype"}
